@@ -40,6 +40,7 @@ const (
 	c18Legacy
 	c18OwnJSON
 	c18NonMsg
+	c18TypedNilOwn // a typed nil pointer of a type with its own JSON methods
 	c18Count
 )
 
@@ -83,6 +84,8 @@ func c18Pick(own *c18Own) (interface{}, int) {
 		return &c11Legacy{c: &c11Counters{}}, k
 	case c18OwnJSON:
 		return own, k
+	case c18TypedNilOwn:
+		return (*c18Own)(nil), k
 	default:
 		return &c03Opaque{}, k
 	}
@@ -94,7 +97,7 @@ func H_C18_Marshal() {
 	o, opts := c18Options()
 	b, err := JSONMarshaler(m, opts...).MarshalJSON()
 	switch k {
-	case c18Nil, c18TypedNil:
+	case c18Nil, c18TypedNil, c18TypedNilOwn:
 		verifAssert2(b == nil, err == nil, "a nil message marshals to nothing")
 	case c18OwnJSON:
 		verifAssert3(own.marshals == 1, err == nil, string(b) == `{"own":1}`, "a json.Marshaler is called directly and its result returned")
@@ -154,7 +157,7 @@ func H_C18_Unmarshal() {
 	data := []byte(`{"name":"g","extra_key":1}`)
 	err := JSONUnmarshaler(m, opts...).UnmarshalJSON(data)
 	switch k {
-	case c18Nil, c18TypedNil:
+	case c18Nil, c18TypedNil, c18TypedNilOwn:
 		verifAssert(err != nil, "unmarshaling into nil is an error")
 	case c18OwnJSON:
 		verifAssert2(own.unmarshals == 1, err == nil, "a json.Unmarshaler is called directly")
